@@ -1,3 +1,177 @@
 // Package models holds Go-source models of third-party functions (DESIGN.md section 4.3).
-// They are interpreted symbolically in place of the real callee; natively the real function runs.
+// They are interpreted symbolically in place of the real callee (substitution table in
+// engine/sx/models.go); natively the real function runs.
 package models
+
+import (
+	"context"
+	"errors"
+	"fmt"
+	"sync"
+
+	"github.com/Azure/retry/exponential"
+	"github.com/element-of-surprise/coercion/internal/zzverif/api"
+	bsync "github.com/gostdlib/base/concurrency/sync"
+	"github.com/gostdlib/base/concurrency/worker"
+)
+
+// PoolSubmit models (*worker.Pool).Submit: run f on its own goroutine. When ctx is already done the real
+// pool may refuse (its select between ctx.Done() and the queue is a coin flip): both outcomes are explored.
+func PoolSubmit(p *worker.Pool, ctx context.Context, f func()) error {
+	if f == nil {
+		return fmt.Errorf("worker.Pool: cannot submit a runner that is nil")
+	}
+	if ctx.Err() != nil && api.Choose("submit_refused", 2) == 1 {
+		return context.Cause(ctx)
+	}
+	api.Spawn(f)
+	return nil
+}
+
+// MLimited models worker.Limited: a counting semaphore in front of the pool.
+type MLimited struct {
+	p     *worker.Pool
+	wg    sync.WaitGroup
+	limit chan struct{}
+}
+
+func PoolLimited(p *worker.Pool, size int) *MLimited {
+	if size < 1 {
+		panic("cannot have a Limited Pool with size < 1")
+	}
+	return &MLimited{p: p, limit: make(chan struct{}, size)}
+}
+
+func (l *MLimited) Submit(ctx context.Context, f func()) error {
+	select {
+	case <-ctx.Done():
+		return context.Cause(ctx)
+	case l.limit <- struct{}{}:
+	}
+	l.wg.Add(1)
+	wrap := func() {
+		defer func() {
+			<-l.limit
+			l.wg.Done()
+		}()
+		f()
+	}
+	return PoolSubmit(l.p, ctx, wrap)
+}
+
+func (l *MLimited) Wait() { l.wg.Wait() }
+
+func LimitedGroup(l *MLimited) bsync.Group { return bsync.Group{Pool: l} }
+
+func PoolGroup(p *worker.Pool) bsync.Group { return bsync.Group{Pool: p} }
+
+// mgroup is the state of one sync.Group between its first Go and its Wait.
+type mgroup struct {
+	wg   sync.WaitGroup
+	mu   sync.Mutex
+	errs []error
+}
+
+var (
+	groupsMu sync.Mutex
+	groups   = map[*bsync.Group]*mgroup{}
+)
+
+func grp(w *bsync.Group) *mgroup {
+	groupsMu.Lock()
+	defer groupsMu.Unlock()
+	m := groups[w]
+	if m == nil {
+		m = &mgroup{}
+		groups[w] = m
+	}
+	return m
+}
+
+// GroupGo models (*sync.Group).Go.
+func GroupGo(w *bsync.Group, ctx context.Context, f func(ctx context.Context) error, options ...bsync.GoOption) error {
+	if ctx.Err() != nil {
+		return context.Cause(ctx)
+	}
+	m := grp(w)
+	m.wg.Add(1)
+	run := func() {
+		defer m.wg.Done()
+		if err := context.Cause(ctx); err != nil {
+			m.mu.Lock()
+			m.errs = append(m.errs, err)
+			m.mu.Unlock()
+			return
+		}
+		if err := f(ctx); err != nil {
+			m.mu.Lock()
+			m.errs = append(m.errs, err)
+			m.mu.Unlock()
+			if w.CancelOnErr != nil {
+				w.CancelOnErr()
+			}
+		}
+	}
+	if w.Pool == nil {
+		api.Spawn(run)
+		return nil
+	}
+	if err := w.Pool.Submit(ctx, run); err != nil {
+		// the real Group leaves its WaitGroup incremented when the pool refuses; so does the model
+		return err
+	}
+	return nil
+}
+
+// GroupWait models (*sync.Group).Wait: join everything started, non-nil iff any recorded error.
+func GroupWait(w *bsync.Group, ctx context.Context) error {
+	m := grp(w)
+	m.wg.Wait()
+	if w.CancelOnErr != nil {
+		w.CancelOnErr()
+		w.CancelOnErr = nil
+	}
+	groupsMu.Lock()
+	delete(groups, w)
+	groupsMu.Unlock()
+	if len(m.errs) == 0 {
+		return nil
+	}
+	return errors.Join(m.errs...)
+}
+
+// ExpNew models exponential.New: policy validation is the registry's job, interval arithmetic is dropped.
+func ExpNew(options ...exponential.Option) (*exponential.Backoff, error) {
+	return &exponential.Backoff{}, nil
+}
+
+// WithPolicy models exponential.WithPolicy.
+func WithPolicy(policy exponential.Policy) exponential.Option { return nil }
+
+// BackoffRetry models (*exponential.Backoff).Retry for a policy without MaxAttempts and without transformers:
+// retry until success, a permanent error, or a done context. Waiting between attempts is a scheduling point.
+func BackoffRetry(b *exponential.Backoff, ctx context.Context, op exponential.Op, options ...exponential.RetryOption) error {
+	r := exponential.Record{Attempt: 1}
+	err := op(ctx, r)
+	if err == nil {
+		return nil
+	}
+	unroll := api.Bound("retry_unroll", 4, 5)
+	for {
+		if errors.Is(err, exponential.ErrPermanent) {
+			return err
+		}
+		if ctx.Err() != nil {
+			return fmt.Errorf("r.Err: %w", exponential.ErrRetryCanceled)
+		}
+		if r.Attempt >= unroll {
+			api.Cut("retry loop unrolled " + fmt.Sprint(unroll) + " times")
+		}
+		api.Yield("backoff")
+		r.Attempt++
+		err = op(ctx, r)
+		if err == nil {
+			return nil
+		}
+	}
+}
